@@ -22,7 +22,8 @@ for id in $ids; do
   line=$(echo "$out" | grep -m1 -A1 "^VIOLATION" | tail -1 | cut -c1-300)
   # keep the (shrunk) witness as a committed regression case: it must pass on the unchanged tree and fails on the seeded one
   wit=$(echo "$out" | grep -m1 "^VIOLATION" | sed 's/.*replay=//')
-  if [ -n "$wit" ] && [ -f "$wit" ]; then mkdir -p regress/$prop; grep -v "^# message\|^# case" "$wit" | sed "s/^# class .*/# witness of seeded defect $id (passes on the unchanged tree)/" > regress/$prop/seed-$id.case; fi
+  # (when the first violation is this seed's own committed witness there is nothing to copy - and copying a file onto itself would truncate it)
+  if [ -n "$wit" ] && [ -f "$wit" ] && [ "$(readlink -f "$wit")" != "$(readlink -f regress/$prop/seed-$id.case)" ]; then mkdir -p regress/$prop; grep -v "^# message\|^# case" "$wit" | sed "s/^# class .*/# witness of seeded defect $id (passes on the unchanged tree)/" > regress/$prop/seed-$id.case; fi
   echo "$id: rc=$rc $(echo "$out" | grep -c '^VIOLATION') violation line(s): $line"
   python3 - "$d/meta.json" "$prop" "$rc" "$line" "$(basename $P)" <<'PY'
 import json,sys
